@@ -33,6 +33,8 @@ def main():
     finally:
         sh(["git", "-C", REPO, "checkout", "--", "."])
         sh(["git", "-C", REPO, "clean", "-fdq"])
+        # files the checks regenerate from /repo (lock graph, translated models) go back to the clean-tree version
+        sh(["git", "-C", ROOT, "checkout", "--", "coq/Gen", "evidence"])
     json.dump(results, open(os.path.join(d, "last_run.json"), "w"), indent=1)
     caught = any(v["exit"] == 1 and v["violations"] for v in results.values())
     print("CAUGHT" if caught else "MISSED", name)
